@@ -9,6 +9,9 @@ HOOK_COMMITS = []
 
 SIM_NOTE = "Trusted base: Go runtime and testing/synctest (fake clock, quiescence), the instrumenter (validated by running the repository's own suite on the instrumented copy), the harness oracles. Samples schedules and faults; a clean batch is evidence, not proof."
 
+REAL_PROXY = ["reservoir/proxy (handler, fetcher, responders, headers)", "reservoir/cache", "reservoir/config", "net/http server and transport", "crypto/tls (tunnels)", "golang.org/x/sync/singleflight", "kernel file system (tmpfs)"]
+STUB_PROXY = ["clock (synctest fake clock)", "goroutine scheduling (seeded cooperative scheduler)", "network (in-memory simnet connections)", "origin application (scripted, versioned bodies, fault-injecting)", "clients (raw-wire, scripted)"]
+
 PROPS = {
     "C01": {
         "scenarios": ["cache-lin", "cache-linfault", "cache-cnt"],
@@ -45,5 +48,41 @@ PROPS = {
         "level_text": "Seeded exploration of interleavings of store/get/delete/update with store-triggered eviction, janitor ticks, limit/interval changes and Destroy; a deadlock is decided by the scheduler (tasks blocked on locks, nothing eligible, no timer), not by a timeout.",
         "level_note": SIM_NOTE,
         "assumptions": ["a lock taken through a primitive the instrumenter does not rewrite would stall a step and is reported as infrastructure trouble, not as a deadlock"],
+    },
+    "C03": {
+        "scenarios": ["seq-c03", "seq-c03", "seq-c06"],
+        "rules": ["C03."],
+        "level": "exploration",
+        "rule_text": "seeded sequential request histories on one resource through the full proxy stack: gaps placed around the reference lifetime (L-1s, L, L+1s, 2L, default+-1s, random), Cache-Control forms (letter case, several lines, extra directives, quoted/malformed values) x Expires forms (IMF, RFC 850, asctime, 0, -1, garbage, past, future) x ignore_cache_control x force_default_max_age x default_max_age in {1s,90s,1h}, janitor interval below and above the lifetime; judged by a reference freshness model built from the statement; distinct = (plan, schedule) hash; non-trivial = at least one response was a HIT or REVALIDATED",
+        "quick": {"runs": 6000, "budget_s": 40},
+        "thorough": {"runs": 400000, "budget_s": 600},
+        "real": REAL_PROXY, "stub": STUB_PROXY,
+        "level_text": "Seeded exploration of request histories in simulated time (hour-long gaps cost microseconds) against an independent reference model of freshness lifetime, HIT labelling and Age/ttl arithmetic.",
+        "level_note": SIM_NOTE,
+        "assumptions": ["the instant of equality (age == lifetime) is accepted either way", "with ignore_cache_control a max-age=0/no-store response has no stated lifetime: not judged"],
+    },
+    "C04": {
+        "scenarios": ["seq-c04", "seq-c04", "seq-c03"],
+        "rules": ["C04."],
+        "level": "exploration",
+        "rule_text": "seeded histories [req1 (GET/HEAD/POST), req2.. (GET)] on one resource whose origin answers with status in {200,201,203,204,301,400,404,410,500,503} and header sets from the C03 grammar plus no-store/no-cache/private/public/must-revalidate/s-maxage in any case, repetition and line split; three-valued reference storable(): must-not => next GET reaches the origin, must => next GET within the lifetime is answered without origin contact; non-trivial = a HIT/REVALIDATED occurred",
+        "quick": {"runs": 6000, "budget_s": 40},
+        "thorough": {"runs": 400000, "budget_s": 600},
+        "real": REAL_PROXY, "stub": STUB_PROXY,
+        "level_text": "Seeded exploration of (method, status, header set, cache_policy) inputs through the running proxy, judged in both directions by a three-valued reference of storability.",
+        "level_note": SIM_NOTE,
+        "assumptions": ["responses carrying Vary or Set-Cookie and malformed max-age values are judged 'may' (the statement is silent)"],
+    },
+    "C06": {
+        "scenarios": ["seq-c06"],
+        "rules": ["C06."],
+        "level": "exploration",
+        "rule_text": "seeded histories interleaving client GETs (some carrying marker conditionals), clock advances past the lifetime, origin version changes, and origin answers {304, 200, 404, 500} to the conditional request; validator combinations {ETag, Last-Modified, both, none, weak}; judged against the origin's request log and a reference entry state; non-trivial = a revalidation happened",
+        "quick": {"runs": 6000, "budget_s": 40},
+        "thorough": {"runs": 400000, "budget_s": 600},
+        "real": REAL_PROXY, "stub": STUB_PROXY,
+        "level_text": "Seeded exploration of histories with expiry and origin changes; the origin log decides which validators were sent, the reference state decides which body and label the client must see.",
+        "level_note": SIM_NOTE,
+        "assumptions": ["if the stored response had no validator of a kind, nothing is demanded about that conditional header"],
     },
 }
